@@ -9,12 +9,12 @@ Same(i) == LET s == Tr[i].st IN
   /\ run' = s.run /\ epoch' = s.epoch /\ hs' = s.hs /\ done' = s.done /\ (sync' = "yes") = s.insync /\ ntx' = s.ntx
   /\ gate' = s.gate /\ stopReq' = s.stopReq /\ stopRet' = s.stopRet /\ phases' = s.phases /\ saved' = s.saved /\ locTop' = s.locTop
 Step1(e) == CASE e.a = "Accept" -> Accept [] e.a = "Version" -> Version [] e.a = "Headers" -> Headers(e.n) [] e.a = "Block" -> Block(e.k)
-              [] e.a = "Tx" -> Tx [] e.a = "Close" -> Close(e.k) [] e.a = "Stop" -> Stop [] e.a = "Release" -> Release [] OTHER -> FALSE
+              [] e.a = "Tx" -> Tx [] e.a = "Close" -> Close(e.k) [] e.a = "Stop" -> Stop [] e.a = "Release" -> Release [] e.a = "Feed" -> Feed [] OTHER -> FALSE
 TMatch == /\ l < Len(Tr) /\ Tr[l+1].act.a # "init" /\ Tr[l+1].skip = ""
           /\ Step1(Tr[l+1].act) /\ Same(l+1) /\ l' = l + 1 /\ UNCHANGED rej
 TStart(i) == /\ run' = "connecting" /\ epoch' = 0 /\ hs' = FALSE /\ ann' = 0 /\ done' = 0 /\ sync' = "no" /\ ntx' = 0
              /\ gate' = "none" /\ pend' = "" /\ emitted' = 0 /\ stopReq' = FALSE /\ stopRet' = FALSE /\ phases' = <<>>
-             /\ saved' = [tip |-> 0, utx |-> 0] /\ locTop' = -1 /\ steps' = 0 /\ act' = A("init", 0, "") /\ l' = i
+             /\ saved' = [tip |-> 0, utx |-> 0] /\ locTop' = -1 /\ fed' = FALSE /\ steps' = 0 /\ act' = A("init", 0, "") /\ l' = i
 Begin == l < Len(Tr) /\ Tr[l+1].act.a = "init" /\ TStart(l+1) /\ UNCHANGED rej
 NextInit(i) == IF \E j \in i..Len(Tr) : Tr[j].act.a = "init"
                THEN CHOOSE j \in i..Len(Tr) : Tr[j].act.a = "init" /\ \A k \in i..(j-1) : Tr[k].act.a # "init" ELSE 0
